@@ -37,16 +37,24 @@ def frag(fs):
         return {"k": "M", "s": pt(f["s"]), "e": pt(f["e"]), "b": f["b"],
                 "em": {"Circle": "circle", "OpenCircle": "open_circle", "BigOpenCircle": "big_open_circle"}.get(f["em"], f["em"]), "cells": cells}
     if k == "rect":
-        return {"k": "R", "s": pt(f["s"]), "e": pt(f["e"]), "r": L8(f["r"]), "b": f["b"], "cells": cells}
+        return {"k": "R", "s": pt(f["s"]), "e": pt(f["e"]), "r": L8(f["r"]), "b": f["b"], "f": f["f"], "cells": cells}
     if k == "ctext":
         return {"k": "T", "cell": f["c"], "t": f["t"], "cells": cells}
     raise Inexact()
 
 
+UNICODE_MODELLED = None
+
+
 def in_domain(text):
     """the mechanism model covers the characters of Glyphs!Modelled plus non-drawing labels"""
+    global UNICODE_MODELLED
     from . import gen
-    return all(ch in MODELLED or ch == "\n" or ch in gen.LABELS for ch in text)
+    if UNICODE_MODELLED is None:
+        import re, os
+        t = open(os.path.join(common.SPEC, "UnicodeGlyphs.tla")).read()
+        UNICODE_MODELLED = set(chr(int(x)) for x in re.search(r"UnicodeChars == \{([^}]*)\}", t).group(1).split(","))
+    return all(ch in MODELLED or ch == "\n" or ch in gen.LABELS or ch in UNICODE_MODELLED for ch in text)
 
 
 def events_of(stages):
